@@ -42,7 +42,22 @@ def rsa_kex_unit():
                  global_oracles={'getRandomBytes': ('getRandomBytes', ['Z'], 'bytes')})
 
 
+def rsa_privop_unit():
+    """Python_RSAKey._rawPrivateKeyOp: the blinding pair (blinder, unblinder) is object state shared by all
+    threads using the key; it is threaded through the model, under the obligation that every access to it
+    lies inside `with self._lock`."""
+    sigs = {'_rawPrivateKeyOp': {'params': [('message', 'Z')], 'ret': 'Z'}}
+    return UnitX(os.path.join(REPO, 'tlslite/utils/python_rsakey.py'), 'Python_RSAKey', sigs, 'C11_RsaPrivOp',
+                 fields={'self.n': 'Z', 'self.e': 'Z'},
+                 oracles={'self._rawPrivateKeyOpHelper': ('self_rawPrivateKeyOpHelper', ['Z'], 'Z')},
+                 global_oracles={'getRandomNumber': ('getRandomNumber', ['Z', 'Z'], 'Z'),
+                                 'powMod': ('powMod', ['Z', 'Z', 'Z'], 'Z'),
+                                 'invMod': ('invMod', ['Z', 'Z'], 'Z')},
+                 state={'self.blinder': 'Z', 'self.unblinder': 'Z'}, locks=('self._lock',))
+
+
 UNITS = {
+    'C11_RsaPrivOp': rsa_privop_unit,
     'C11_RsaDecrypt': rsa_decrypt_unit,
     'C11_RsaKex': rsa_kex_unit,
 }
